@@ -91,6 +91,9 @@ const (
 	EndCap      = "cap"
 	EndPruned   = "pruned"
 	EndError    = "error"
+	// EndPanic: a goroutine started by the code under test panicked and nothing recovered it - outside
+	// the explorer that is the end of the process.
+	EndPanic = "panic"
 )
 
 // X is one execution.
@@ -361,9 +364,24 @@ func Start(t *Thread) {
 //
 //go:norace
 func Exit() {
-	_, t := self()
+	p := recover() // Exit is the deferred function itself: a panic of the goroutine's body ends here
+	x, t := self()
 	if t == nil {
+		if p != nil {
+			panic(p)
+		}
 		return
+	}
+	if p != nil {
+		if t.Name != "" || x == nil || x.killed {
+			// a harness thread (they recover what they expect), or an execution already abandoned
+			if t.Name != "" && !x.killed {
+				panic(p)
+			}
+		} else if x.end == "" || x.end == EndPruned {
+			x.end = EndPanic
+			x.endMsg = fmt.Sprintf("a goroutine of the code under test panicked and nothing recovered it: %v", p)
+		}
 	}
 	t.status = stDone
 	t.goid = 0
@@ -700,7 +718,7 @@ func (x *X) loop() {
 			}
 			x.running = nil
 		}
-		if x.end == EndError || x.end == EndSpin || x.stopNow {
+		if x.end == EndError || x.end == EndSpin || x.end == EndPanic || x.stopNow {
 			return
 		}
 		alive, native := 0, 0
